@@ -53,6 +53,12 @@ def gen_data_family(rng, n_roots=(1, 2)):
                 'ch_desc': ch_desc, 'time_desc': {}, 'order': rng.pick(['F', 'S']) if rng.chance(0.3) else 'C',
                 'dtype': 'float32' if rng.chance(0.12) else 'float64',
                 'descriptors': {'subj': rng.pick(['s1', 's2']), 'sess': rng.pick([1, 2])}}
+        if rng.chance(0.2):
+            # a numeric observation descriptor with missing entries (reaction times of missed trials ...)
+            rt = [rng.pick([0.5, 0.75, 0.5]) for _ in range(n_obs)]
+            for i_ in rng.sample(range(n_obs), max(1, n_obs // 3)):
+                rt[i_] = float('nan')
+            spec['obs_desc']['rt'] = {'values': rt, 'container': rng.pick(['list', 'array'])}
         if temporal and rng.chance(0.4):
             spec['time_desc']['phase'] = gen.gen_grouping(rng, n_time, kinds=('groups', 'unique'), typ='str')
         if temporal and rng.chance(0.8 if n_time > 16 else 0.35):
@@ -105,7 +111,8 @@ def build_dataset(spec):
 
 def _scalar_valued(v):
     """a descriptor whose entries are scalars (usable to select / group by)"""
-    return np.asarray(v, dtype=object).ndim == 1 if not isinstance(v, np.ndarray) else v.ndim == 1
+    ok = np.asarray(v, dtype=object).ndim == 1 if not isinstance(v, np.ndarray) else v.ndim == 1
+    return ok and not any(isinstance(x, (float, np.floating)) and x != x for x in v)      # and none of them missing (NaN)
 
 
 class DataOps:
@@ -706,8 +713,8 @@ class DataOps:
             return False
         if any(tok[1] is not None for tok in src.sem['rows'] + src.sem['cols']):
             return False     # float time columns would be taken for channels by from_df: not admissible
-        if not o['flag'] and (any(isinstance(norm(x), float) for v in src.obj.obs_descriptors.values() for x in v)
-                              or any(isinstance(norm(v), float) for v in src.obj.descriptors.values())):
+        if not o['flag'] and (any(isinstance(x, (float, np.floating)) for v in src.obj.obs_descriptors.values() for x in v)
+                              or any(isinstance(v, (float, np.floating)) for v in src.obj.descriptors.values())):
             return False     # from_df(channels=None) takes every float column for a channel: float labels not admissible
         chans = None
         if o['flag']:
